@@ -109,6 +109,7 @@ class Ctx:
         self.assume = []       # extra assumptions (same format)
         self.stats = dict(cuts_positional=0, cuts_generic=0, vars=0)
         self.trace_vars = {}   # var -> description (for counterexample printing)
+        self.shadow = None     # optional dict var -> int: concrete shadow execution (encoder self-test)
 
     # ------------------------------------------------------------------ variables
     def fresh(self, pfx, lo, hi, desc=None):
@@ -117,9 +118,13 @@ class Ctx:
         self.bounds[v] = (lo, hi)
         if desc: self.trace_vars[v] = desc
         return v
-    def input(self, name, lo, hi):
+    def input(self, name, lo, hi, shadow=None):
         self.bounds[name] = (lo, hi)
+        if self.shadow is not None and shadow is not None: self.shadow[name] = shadow
         return Poly.var(name)
+    def sh(self, p):
+        """value of p under the shadow assignment"""
+        return self.resolve(p).eval(self.shadow) if False else p.eval(self.shadow)
 
     def resolve(self, p):
         if not self.split: return p
@@ -200,6 +205,9 @@ class Ctx:
         else:
             lo_v = self.fresh("d", 0, (1 << s) - 1)
         hi_v = self.fresh("d", lo_b >> s, hi_b >> s)
+        if self.shadow is not None and v in self.shadow:
+            val = self.shadow[v]
+            self.shadow[hi_v] = val >> s; self.shadow[lo_v] = val - ((val >> s) << s)
         self.split[v] = Poly.var(lo_v) + Poly.var(hi_v).scale(1 << s)
         if key is not None:
             D = self.dec[key]
@@ -245,6 +253,26 @@ class Ctx:
 
     def _structural_cut(self, Hp, Lp, L, k, llo):
         """exact cuts that need no new definitional equation: L = A + 2^j*B with 0 <= A < 2^j, or a single variable"""
+        nc = [(m, c) for m, c in L.items() if m]
+        if len(nc) == 1 and len(nc[0][0]) == 1:
+            v = nc[0][0][0]; c = nc[0][1]; lb, hb = self.bounds[v]
+            if hb - lb == 1 and lb in (0, -1):
+                # two-valued term: L takes the value c0 (v = 0) or c0 + C (v = +-1): slice both constants
+                c0 = L.get((), 0)
+                b = Poly.var(v) if lb == 0 else Poly.var(v).scale(-1)     # 0/1 indicator
+                C = c if lb == 0 else -c
+                K = 1 << k
+                q0, r0 = c0 >> k, c0 & (K - 1)
+                q1, r1 = (c0 + C) >> k, (c0 + C) & (K - 1)
+                return Hp.addc(q0) + b.scale(q1 - q0), Poly.const(r0) + b.scale(r1 - r0)
+        if len(L) == 1:
+            (m, c), = L.items()
+            if len(m) == 1 and c > 0 and (c & (c - 1)) == 0:
+                lb, hb = self.bounds[m[0]]
+                if lb >= -1 and hb <= 0:       # sign digit: floor and remainder need no new variable
+                    j = c.bit_length() - 1
+                    qv, rv = self.split_var(m[0], k - j)
+                    return Hp + qv, rv.scale(c)
         if llo < 0: return None
         vals = sorted(set((abs(c) & -abs(c)).bit_length() - 1 for c in L.values()), reverse=True)
         for j in vals:
@@ -275,6 +303,7 @@ class Ctx:
         if nlo >= 0 and nhi <= 1: return neg          # L = -(boolean): [L<0] is that boolean
         if key not in cache:
             v = self.fresh("s", 0, 1)
+            if self.shadow is not None: self.shadow[v] = 1 if L.eval(self.shadow) < 0 else 0
             self.__dict__.setdefault("_signdef", {})[v] = L
             from .lsym import Cond
             if K is None:
@@ -294,9 +323,15 @@ class Ctx:
             lo, hi = self.interval(x)
             off = 0
             top = self.fresh("d", lo, hi)
+            if self.shadow is not None: self.shadow[top] = x.eval(self.shadow)
             D = dict(x=x, cuts=[0], digs=[top])
             self.dec[key] = D; self.order.append(key); self.owner[top] = key
             self.stats["cuts_generic"] += 1
+            if lo < 0:
+                # cut a possibly negative value first at its tight width m (x in [-2^m, 2^m)): everything above
+                # bit m is then one sign digit, and later cuts above m need no further variables
+                m = max((-lo - 1).bit_length(), hi.bit_length())
+                if 0 < m < k: self.split_var(top, m)
         q = ZERO; r = ZERO
         cuts, digs = list(D["cuts"]), list(D["digs"])
         for i, (c, d) in enumerate(zip(cuts, digs)):
